@@ -154,6 +154,20 @@ def main():
             if any(h.name == x.name for x in harnesses):
                 raise GenError('two tasks produce the same harness name %s: give them distinct labels' % h.name)
             harnesses.append(h)
+            for sh in getattr(h, 'side_harnesses', []):
+                sh.task = task
+                sh.fn_key = h.fn_key + ' (one iteration, scalarised)'
+                sh.notes = []
+                harnesses.append(sh)
+        # every pure lemma used by some harness is proved in its own harness
+        used = sorted(set(n for h in harnesses for n in getattr(h, 'used_lemmas', [])))
+        from gen import lemma_harness
+        for ln in used:
+            lh = lemma_harness(base.LEMMAS[ln], prop)
+            lh.task = Task('lemma', ln, label=ln)
+            lh.fn_key = 'lemma.' + ln
+            lh.notes = []
+            harnesses.append(lh)
     except (ExtractionError, GenError) as ex:
         print('TOOL-FAILURE property=%s extraction/generation: %s' % (prop, ex))
         write_evidence(evid_path, prop, tier, seed, [], [], time.time() - t0, mod, note='extraction failure: %s' % ex, ok=False)
@@ -353,6 +367,7 @@ def write_evidence(path, prop, tier, seed, results, harnesses, wall, mod, note=N
     fns = sorted(set(h.fn_key + ' [' + h.task.label + ']' for h in harnesses))
     trusted = list(COMMON_TRUSTED) + list(getattr(mod, 'TRUSTED', []))
     notes = sorted(set(n for h in harnesses for n in getattr(h, 'notes', [])))
+    assumed = sorted(set(n for h in harnesses for n in getattr(h, 'assumed', [])))
     ev = {
         'property_id': prop, 'tier': tier, 'seed': seed, 'level': getattr(mod, 'LEVEL', 'proof'),
         'coverage': {
@@ -373,7 +388,7 @@ def write_evidence(path, prop, tier, seed, results, harnesses, wall, mod, note=N
             'header_digest': header_digest() if os.path.exists(os.path.join(cxxast.REPO, 'include')) else '',
             'explanation': getattr(mod, 'EXPLANATION', ''),
         },
-        'assumptions': list(getattr(mod, 'ASSUMPTIONS', [])) + ([note] if note else []),
+        'assumptions': list(getattr(mod, 'ASSUMPTIONS', [])) + assumed + ([note] if note else []),
         'wall_s': round(wall, 1), 'violations': int(violations),
     }
     if not n_obl:
